@@ -58,7 +58,9 @@ type Backend struct {
 	failTag     string
 	failAt      int // 1-based index among ops carrying failTag; 0 = off
 	failKinds   map[string]bool
+	failMore    map[int]bool // further 1-based indices (same tag) that fail as well
 	failed      *Op
+	failedAll   []Op
 	mutations   int
 	crashAfter  int // 0 = off
 	crashed     bool
@@ -142,6 +144,7 @@ func (b *Backend) SetTag(tag string) {
 func (b *Backend) FailAt(tag string, k int, kinds ...string) {
 	b.mu.Lock()
 	b.failTag, b.failAt, b.failed = tag, k, nil
+	b.failMore, b.failedAll = nil, nil
 	b.tagCount[tag] = 0
 	b.failKinds = nil
 	if len(kinds) > 0 {
@@ -151,6 +154,24 @@ func (b *Backend) FailAt(tag string, k int, kinds ...string) {
 		}
 	}
 	b.mu.Unlock()
+}
+
+// FailAlso adds a further fault to the one armed by FailAt: the k-th operation
+// carrying the same tag fails too (call after FailAt).
+func (b *Backend) FailAlso(k int) {
+	b.mu.Lock()
+	if b.failMore == nil {
+		b.failMore = map[int]bool{}
+	}
+	b.failMore[k] = true
+	b.mu.Unlock()
+}
+
+// FailedAll returns every operation failed by the armed faults, in order.
+func (b *Backend) FailedAll() []Op {
+	b.mu.Lock()
+	defer b.mu.Unlock()
+	return append([]Op(nil), b.failedAll...)
 }
 
 // Failed returns the operation that was failed by the armed fault (nil if the
@@ -322,13 +343,19 @@ func (b *Backend) before(kind, key string, inTx bool) (int, error) {
 		if b.failAt > 0 && op.Tag == b.failTag && b.tagCount[op.Tag] == b.failAt {
 			err = ErrInjected
 			b.failAt = 0
+		} else if op.Tag == b.failTag && b.failMore[b.tagCount[op.Tag]] {
+			err = ErrInjected
+			delete(b.failMore, b.tagCount[op.Tag])
 		}
 	}
 	if err != nil {
 		op.Err = err.Error()
 		if err == ErrInjected {
 			cp := op
-			b.failed = &cp
+			if b.failed == nil {
+				b.failed = &cp
+			}
+			b.failedAll = append(b.failedAll, cp)
 		}
 	}
 	b.log = append(b.log, op)
